@@ -6,7 +6,7 @@ TECHNIQUE = "Lean 4 theorems over an executable simulator model (any policy = de
 
 
 def run(chk: common.Check):
-    e2e.run_suite(chk, "C03", streams=("regular", "dag", "batch", "regular"))
+    e2e.run_suite(chk, "C03", streams=("regular", "dag", "batch", "retime"))
 
 
 def replay(path) -> int:
